@@ -896,6 +896,9 @@ func genC20(rng *rand.Rand, tier string) (cases []string) {
 	}
 	for i := 0; i < nwrap; i++ {
 		n := pick(rng, 0, 1, 2, 3, 4, 5, rng.IntN(12))
+		if rng.IntN(40) == 0 {
+			n = pick(rng, 16, 17, 32, 33, 64, 65)
+		}
 		ids := rng.Perm(n + rng.IntN(3))[:n]
 		var ms []string
 		for _, id := range ids {
